@@ -1,11 +1,11 @@
-import sys, time, importlib
+import sys, time, importlib, json
 sys.path.insert(0, '/verif')
 from pyvc import harness, smt
 mod, prop = sys.argv[1], sys.argv[2]
 ctx = harness.Context({prop})
 t0=time.time()
-m = importlib.import_module('contracts.'+mod)
-m.generate(ctx)
+for m in mod.split(','):
+    importlib.import_module('contracts.'+m).generate(ctx)
 print('generated', len(ctx.obligations), 'obligations in', round(time.time()-t0,2), 's; paths', ctx.paths, 'undecided', len(ctx.undecided))
 for u in ctx.undecided[:5]: print('UNDECIDED', u['obligation'], u['reason'][:1500])
 t0=time.time()
@@ -14,8 +14,9 @@ print('solved in', round(time.time()-t0,2))
 from collections import Counter
 print(Counter((o.expect, r['result']) for o,r in zip(ctx.obligations,res)))
 bad=[(o,r) for o,r in zip(ctx.obligations,res) if (o.expect=='unsat' and r['result']!='unsat') or (o.expect=='sat' and r['result']!='sat')]
-for o,r in bad[:40]:
-    print(r['result'], o.name, o.where, {k:v for k,v in r.get('model',{}).items() if k.startswith('len_')}, r.get('reason'))
+seen=set()
+for o,r in bad:
+    if o.name in seen: continue
+    seen.add(o.name)
+    print(r['result'], o.name, o.where, r.get('reason','')[:200], json.dumps(r.get('value_failure',''),default=str)[:int(sys.argv[3]) if len(sys.argv)>3 else 300])
 print(len(bad),'bad')
-for o,r in bad[:6]:
-    if 'value_failure' in r: print('   FAIL', o.name, str(r['value_failure'])[:1200])
